@@ -25,6 +25,9 @@ pub struct RoCase {
     /// directory entry still carries the old size)
     #[serde(default)]
     pub abandon_setup: bool,
+    /// the volume carries the I/O-error status bit (0x02) at mount: it is not "dirty", the stored count stays usable
+    #[serde(default)]
+    pub io_error_bit: bool,
 }
 
 fn setup_gen() -> GenCfg {
@@ -90,6 +93,7 @@ pub fn eval(c: &RoCase) -> CaseOut {
         if c.abandon_setup {
             run.abandon_keep_image();
         }
+        run.ro_set_io_error_bit = c.io_error_bit;
         run.begin_readonly_with(c.dirty || c.abandon_setup, c.fsinfo_unknown, hint, count)?;
         for (i, op) in c.ro.iter().enumerate() {
             run.exec(1000 + i, op)?;
@@ -132,7 +136,7 @@ fn strategy() -> impl Strategy<Value = RoCase> {
         let mut mem: Vec<String> = Vec::new();
         let setup = s_raw.iter().flat_map(|r| gen::decode_op(&sg, &nt, cs, r, &mut mem)).collect();
         let ro = r_raw.iter().flat_map(|r| gen::decode_op(&rg, &nt, cs, r, &mut mem)).collect();
-        RoCase { vol, setup, ro, dirty: flags & 3 == 0, fsinfo_unknown: flags & 12 == 0, end_by_drop: flags & 16 != 0, abandon_setup: flags % 5 == 0, odd_hint: if flags & 32 != 0 { 1 + (flags >> 6) + 3 * (flags & 1) } else { 0 }, odd_count: if flags & 0xC0 == 0xC0 { 1 + (flags & 1) } else { 0 } }
+        RoCase { vol, setup, ro, dirty: flags & 3 == 0, fsinfo_unknown: flags & 12 == 0, end_by_drop: flags & 16 != 0, abandon_setup: flags % 5 == 0, io_error_bit: flags % 7 == 3, odd_hint: if flags & 32 != 0 { 1 + (flags >> 6) + 3 * (flags & 1) } else { 0 }, odd_count: if flags & 0xC0 == 0xC0 { 1 + (flags & 1) } else { 0 } }
     })
 }
 
